@@ -7,6 +7,7 @@
    calls, peer disconnects and deadline expiries.  [info] gives each request its connection and kind. *)
 From Coq Require Import List ZArith Arith Bool.
 From RPCX Require Import Server.Shutdown Server.ShutdownInv Server.ShutdownTac Server.ShutdownProofs.
+From RPCX Require Server.DoneChan Server.DoneChanGen Server.DoneChanProofs.
 Import ListNotations.
 
 (* (1) Unless the deadline expires, Shutdown returns nil only when every request read at any moment
@@ -103,6 +104,22 @@ Proof. vm_compute. repeat split; reflexivity. Qed.
 Print Assumptions C16_drains_what_was_read.
 Print Assumptions C16_drained_state.
 Print Assumptions C16_connections_closed_after_the_wait.
+(* "Safe to call repeatedly or together with Close", at the granularity of single statements and about the code as it
+   is now.  The model above treats "close doneChan unless it is closed" as one step; in the source it is two (look,
+   then close), and closing a closed channel panics.  tools/godone2v regenerates from server/*.go, on every run, the one
+   place that closes doneChan (it must have exactly the shape select { case <-s.doneChan: default: close(s.doneChan) })
+   and its call sites with the state of s.mu there: every one of them stands under the mutex ... *)
+Theorem C16_every_closing_of_done_stands_under_the_mutex :
+  forallb (fun s => snd s) DoneChanGen.done_sites = true.
+Proof. exact DoneChanProofs.every_site_holds_the_mutex. Qed.
+
+(* ... and goroutines that run such call sites - any number of them, each any number of times (Shutdown, Close, again and
+   together), interleaved statement by statement in any order - never close the channel twice: nobody panics. *)
+Theorem C16_shutdown_and_close_never_close_done_twice : forall (calls : nat -> nat) sched,
+  DoneChan.dpanic (DoneChan.drun sched
+    (DoneChan.dstart (fun t => List.concat (repeat (DoneChan.site_prog true) (calls t))))) = false.
+Proof. exact DoneChanProofs.server_never_closes_done_twice. Qed.
+
 Print Assumptions C16_count_exact.
 Print Assumptions C16_wait_ends_when_idle.
 Print Assumptions C16_nothing_starts_after_completion.
@@ -111,3 +128,5 @@ Print Assumptions C16_serve_returns_after_completion.
 Print Assumptions C16_done_closed_at_most_once.
 Print Assumptions C16_one_shutdown_runs.
 Print Assumptions C16_later_shutdown_returns_at_once.
+Print Assumptions C16_every_closing_of_done_stands_under_the_mutex.
+Print Assumptions C16_shutdown_and_close_never_close_done_twice.
